@@ -50,15 +50,25 @@ class Crash(Exception):
     pass
 
 
+class CrashOS(Crash, OSError):
+    '''the fault the process SURVIVES (op field `fault: "oserror"`): the step is
+    refused with an OSError (no space left), so every `except OSError` of the
+    code under test sees it; the driver still recognises it as the injected
+    stop.  Nothing is restarted afterwards: what the code keeps in memory
+    stays.'''
+
+
 class Steps:
     count = 0
     crash_at = None
+    os_fault = False
     trace = []
 
     @classmethod
-    def arm(cls, k):
+    def arm(cls, k, os_fault=False):
         cls.count = 0
         cls.crash_at = k
+        cls.os_fault = os_fault
         cls.trace = []
 
     @classmethod
@@ -66,6 +76,8 @@ class Steps:
         cls.count += 1
         if cls.crash_at is not None and cls.count == cls.crash_at:
             cls.trace.append('CRASH@' + what)
+            if cls.os_fault:
+                raise CrashOS(28, 'No space left on device: ' + what)
             raise Crash(what)
         cls.trace.append(what)
 
@@ -316,7 +328,7 @@ def do_op(o):
         if kind == 'upd':
             w, sv, bot, ds = session(o)
             n_before = len(bot.new_values())
-            Steps.arm(o.get('crash'))
+            Steps.arm(o.get('crash'), o.get('fault') == 'oserror')
             try:
                 ds._update()
                 crashed = False
@@ -402,7 +414,7 @@ def run_history(ops, root):
     DBI().open()
     obs = []
     try:
-        faulty = any(o.get('wfail') for o in ops)
+        faulty = any(o.get('wfail') or o.get('fault') for o in ops)
         for o in ops:
             WF['left'], h0 = int(o.get('wfail') or 0), WF['hit']
             try:
